@@ -35,8 +35,12 @@ def instance(seed):
             qm = m
         elif rm == "lt":
             qm = m * rng.uniform(0.55, 0.9)
+            if rng.random() < 0.4:      # far below: the reference lies beyond other quarks' thresholds
+                qm = max(1.05, m * math.exp(-rng.uniform(math.log(2.0), math.log(100.0))))
         else:
             qm = m * rng.uniform(1.1, 1.8)
+            if rng.random() < 0.4:      # far above
+                qm = min(2000.0, m * math.exp(rng.uniform(math.log(2.0), math.log(100.0))))
         quarks.append({"q": q, "rm": rm, "rq": "lt" if qm < qref else "gt"})
         refs.append(ReferenceRunning([m, qm]))
     rec = {"seed": seed, "nfref": nfref, "quarks": quarks, "outcome": "ok", "sorted": True, "resid": [99, 99, 99], "patch": [0, 0, 0],
